@@ -29,10 +29,11 @@ import (
 // Token kinds; the names are the constructor names of `token` in
 // coq/Syntax/CoreGrammar.v (prefixed with T there).
 const (
-	KWord    = "Word"   // a word with quotes or expansions: 'q r', "$x", $(a)
-	KLit     = "Lit"    // unquoted literal that is neither a valid name nor reserved: -x, a.b, 1, x/y
-	KName    = "Name"   // unquoted literal that is a valid name and not reserved: a, foo
-	KAssign  = "Assign" // name=value
+	KWord    = "Word"    // a word with quotes or expansions: 'q r', "$x", $(a)
+	KLit     = "Lit"     // unquoted literal that is neither a valid name nor reserved: -x, a.b, 1, x/y
+	KName    = "Name"    // unquoted literal that is a valid name and not reserved: a, foo
+	KAssign  = "Assign"  // name=value, value purely literal
+	KAssignW = "AssignW" // name=value whose value has a quoted or expanded part
 	KIf      = "If"
 	KThen    = "Then"
 	KElif    = "Elif"
@@ -96,7 +97,11 @@ func RandTok(r *rand.Rand, k string) Tok {
 	case KName:
 		return Tok{k, nameTexts[r.IntN(len(nameTexts))]}
 	case KAssign:
-		return Tok{k, assignTexts[r.IntN(len(assignTexts))]}
+		t := assignTexts[r.IntN(len(assignTexts))]
+		if strings.ContainsAny(t, "'\"$") {
+			return Tok{KAssignW, t}
+		}
+		return Tok{k, t}
 	case KRedir:
 		return Tok{k, redirTexts[r.IntN(len(redirTexts))]}
 	case KIoRedir:
@@ -711,6 +716,9 @@ func Tokenize(src string) (ts []Tok, ok bool) {
 			ok = false
 		case strings.IndexByte(s, '=') > 0 && isNameText(s[:strings.IndexByte(s, '=')]):
 			t.K = KAssign
+			if strings.ContainsAny(s, "'\"$") {
+				t.K = KAssignW
+			}
 		case isNameText(s):
 			t.K = KName
 		case !strings.ContainsAny(s, "'\"$="):
